@@ -70,11 +70,15 @@ pub struct WsGenOpts {
     pub strict_reject_dirs: bool,
     /// chance (out of 8) that a modify entry gets differing ---/+++ names
     pub alt_name_chance: u32,
+    /// misordered-hunks failures (only sound when the push runs without --fuzz)
+    pub allow_misordered: bool,
+    /// inject a second failing patch after the first one (it must never be reached)
+    pub second_failure: bool,
 }
 
 impl Default for WsGenOpts {
     fn default() -> Self {
-        WsGenOpts { max_patches: 6, max_files: 8, fail_chance: 3, allow_reverse: true, allow_rename: true, allow_mode: true, allow_strip: true, nasty_names: false, allow_dup_entries: true, allow_dir_races: true, max_lines: 30, strict_reject_dirs: false, alt_name_chance: 0 }
+        WsGenOpts { max_patches: 6, max_files: 8, fail_chance: 3, allow_reverse: true, allow_rename: true, allow_mode: true, allow_strip: true, nasty_names: false, allow_dup_entries: true, allow_dir_races: true, max_lines: 30, strict_reject_dirs: false, alt_name_chance: 0, allow_misordered: false, second_failure: false }
     }
 }
 
@@ -159,6 +163,12 @@ pub fn gen_ws(ch: &mut Chooser, cx: &mut CaseCtx, o: &WsGenOpts) -> WsCase {
     let npatches = ch.range(1, o.max_patches);
     let inject = ch.chance(o.fail_chance, 8);
     let fail_idx = if inject { Some(ch.below(npatches)) } else { None };
+    // a second failing patch later in the series: the single-threaded run never reaches it, run-ahead
+    // workers do
+    let fail_idx2 = match fail_idx {
+        Some(j) if o.second_failure && j + 1 < npatches && ch.chance(1, 2) => Some(ch.range(j + 1, npatches - 1)),
+        _ => None,
+    };
     let mut states = vec![t0.clone()];
     let mut cur = t0.clone();
     let mut metas: Vec<PatchMeta> = Vec::new();
@@ -190,7 +200,7 @@ pub fn gen_ws(ch: &mut Chooser, cx: &mut CaseCtx, o: &WsGenOpts) -> WsCase {
         let mut ops: Vec<FileOp> = Vec::new();
         let mut specs: Vec<FilePatchSpec> = Vec::new();
         let mut next = cur.clone();
-        let failing_here = fail_idx == Some(pi);
+        let failing_here = fail_idx == Some(pi) || fail_idx2 == Some(pi);
         // which ops of a failing patch fail: decided per op below (at least one forced)
         let mut any_failed = false;
         let mut touched: Vec<String> = Vec::new();
@@ -440,7 +450,7 @@ pub fn gen_ws(ch: &mut Chooser, cx: &mut CaseCtx, o: &WsGenOpts) -> WsCase {
                         failing = (0..fp.hunks.len()).collect();
                         fail_reason = Some("missing-file".into());
                         any_failed = true;
-                    } else if want_fail && !reverse && fp.hunks.len() >= 2 && rej_dir_ok(&path) && ch.chance(1, 5) {
+                    } else if o.allow_misordered && want_fail && !reverse && fp.hunks.len() >= 2 && rej_dir_ok(&path) && ch.chance(1, 5) {
                         // misordered hunks: swap two neighbours; the later one (now first) applies, the
                         // other one then lies before lines that are already frozen
                         let i = ch.below(fp.hunks.len() - 1);
@@ -520,8 +530,12 @@ pub fn gen_ws(ch: &mut Chooser, cx: &mut CaseCtx, o: &WsGenOpts) -> WsCase {
             ops.push(FileOp { kind: "create".into(), old_path: path.clone(), new_path: path.clone(), target: path, hunks: fp.hunks.clone(), failing_hunks: vec![], fail_reason: None });
             specs.push(fp);
         }
-        if failing_here && any_failed && fail_at.is_none() {
-            fail_at = Some(pi);
+        if failing_here && any_failed {
+            if fail_at.is_none() {
+                fail_at = Some(pi);
+            } else {
+                feat.push("second-failing-patch".into());
+            }
         }
         // render; write the broken hunks into the text (specs carry their own copy of hunks)
         for (sp, op) in specs.iter_mut().zip(ops.iter()) {
